@@ -498,6 +498,25 @@ class SymReal:
         c.assume_term(z3.And(r - self.t <= _rv(eps), self.t - r <= _rv(eps)))
         return SymReal(r)
 
+    def __floor__(self):
+        c = cur()
+        n = c.fresh_int("flr")
+        c.assume_term(z3.And(z3.ToReal(n) <= self.t, self.t < z3.ToReal(n) + 1))
+        return SymInt(n)
+
+    def __ceil__(self):
+        c = cur()
+        n = c.fresh_int("cil")
+        c.assume_term(z3.And(z3.ToReal(n) - 1 < self.t, self.t <= z3.ToReal(n)))
+        return SymInt(n)
+
+    def __trunc__(self):
+        c = cur()
+        n = c.fresh_int("trc")
+        c.assume_term(z3.Or(z3.And(self.t >= 0, z3.ToReal(n) <= self.t, self.t < z3.ToReal(n) + 1),
+                            z3.And(self.t < 0, z3.ToReal(n) - 1 < self.t, self.t <= z3.ToReal(n))))
+        return SymInt(n)
+
     # -- comparisons ---------------------------------------------------------------------
     def _cmp(self, o, op):
         f = _OPS[op]
